@@ -13,6 +13,7 @@ def main():
             fw.build_bins(b, ALL_BINS)
             fw.build_bins(b, ["x_core", "x_derived"], nostd=True)
             fw.build_bins(b, ["x_core", "x_rate"], nostd=True)
+            fw.build_bins(b, ["x_core", "x_derived", "x_rate", "x_conv"], "release")      # C18 and the release lane of C10
             print("built executors for %s (%.1fs)" % (b, time.time() - t0))
         except (fw.Inconclusive, fw.BuildViolation) as e:
             print("setup: building executors for %s failed: %s" % (b, e))
